@@ -19,10 +19,10 @@ from . import lib
 PROP = "C14"
 
 
-def simulate(w, name, G, plans, num, depth, seed):
+def simulate(w, name, G, plans, num, depth, seed, conns="{1, 2, 99}"):
     d = w.sub(name)
     os.makedirs(os.path.join(d, "sim"), exist_ok=True)
-    lib.tlc(d, "PrepStmtMC", lib.cfg_of("PrepStmtSim", G=G, PLANS=plans), workers=1, timeout=3000,
+    lib.tlc(d, "PrepStmtMC", lib.cfg_of("PrepStmtSim", G=G, PLANS=plans, CONNS=conns), workers=1, timeout=3000,
             extra=["-simulate", "file=%s/sim/tr,num=%d" % (d, num), "-depth", str(depth), "-seed", str(seed)])
     scheds = []
     for f in sorted(glob.glob(os.path.join(d, "sim", "tr_*"))):
@@ -30,7 +30,7 @@ def simulate(w, name, G, plans, num, depth, seed):
         hist = lib.state_var(last, "hist")
         if first is None or hist is None:
             continue
-        scheds.append({"plan": lib.flat_records(lib.state_var(first, "plan")), "admin": lib.state_var(first, "admin").strip('"'),
+        scheds.append({"plan": lib.flat_records(lib.state_var(first, "plan")), "admin": lib.state_var(first, "admin").strip('"'), "conns": int(lib.state_var(first, "nconn")) % 99,
                        "hist": lib.flat_records(hist)})
     if len(scheds) < num // 2:
         raise lib.Inconclusive("TLC simulation produced %d behaviours, wanted %d" % (len(scheds), num))
@@ -86,9 +86,9 @@ def signature(b):
 
 def describe(e, b):
     o = e.get("obs", e)
-    s = "ok(complete,noleak,transparent,once,follows-model)=%s%s plan=%s admin=%s results=%s prepares=%s leaked=%s" % (
+    s = "ok(complete,noleak,transparent,once,follows-model)=%s%s plan=%s admin=%s pool=%s results=%s prepares=%s leaked=%s" % (
         (b["complete"], b["noleak"], b["transparent"], b["once"], b["asmodel"]), (" [" + b["why"] + " diverged at step %d]" % b["sd"]) if b["why"] else "",
-        [(p["q"], "tx" if p["tx"] else "db", p["prep"], p["use"]) for p in e["plan"]], e["admin"], o["res"], o["prepares"], o["leaked"])
+        [(p["q"], "tx" if p["tx"] else "db", p["prep"], p["use"]) for p in e["plan"]], e["admin"], e["conns"] or "unlimited", o["res"], o["prepares"], o["leaked"])
     if e["ev"] == "PS":
         s += "\n    schedule=%s" % " ".join("%s(%d)" % (st["a"], st["g"]) for st in e["hist"])
         if o["drift"]:
@@ -104,14 +104,18 @@ def check(w, tier, t0):
     # 1. the protocol model: every interleaving
     d = w.sub("mc")
     G, plans = ("{1, 2}", "PlansAll") if quick else ("{1, 2, 3}", "PlansSmall")
-    r = lib.tlc(d, "PrepStmtMC", lib.cfg_of("PrepStmt", G=G, PLANS=plans, FIXB="TRUE", NOLEAK="INVARIANT NoLeak"), timeout=6000)
+    r = lib.tlc(d, "PrepStmtMC", lib.cfg_of("PrepStmt", G=G, PLANS=plans, FIXB="TRUE", FIXC="TRUE", CONNS="{1, 2}", NOLEAK="INVARIANT NoLeak"), timeout=6000)
     if not r.ok:
         raise lib.Inconclusive("PrepStmt model run failed:\n" + (r.error or ""))
     states, trans = r.distinct, r.generated
     # sensitivity of the model: deleting whatever entry is cached (the code before fix 48f9c6a) leaks
-    r0 = lib.tlc(w.sub("mc0"), "PrepStmtMC", lib.cfg_of("PrepStmt", G="{1, 2}", PLANS="PlansAll", FIXB="FALSE", NOLEAK="INVARIANT NoLeak"), timeout=3000)
+    r0 = lib.tlc(w.sub("mc0"), "PrepStmtMC", lib.cfg_of("PrepStmt", G="{1, 2}", PLANS="PlansAll", FIXB="FALSE", FIXC="TRUE", CONNS="{2}", NOLEAK="INVARIANT NoLeak"), timeout=3000)
     if "NoLeak" not in r0.invariant_violated:
         raise lib.Inconclusive("model self-test: deletion by text (FixB = FALSE) should violate NoLeak")
+    # ... and a transaction waiting for a pool-level preparation (the code before fix 3375c27) deadlocks on an exhausted pool
+    r1 = lib.tlc(w.sub("mc1"), "PrepStmtMC", lib.cfg_of("PrepStmt", G="{1, 2}", PLANS="PlansAll", FIXB="TRUE", FIXC="FALSE", CONNS="{1}", NOLEAK="INVARIANT NoLeak"), timeout=3000)
+    if "Deadlock reached" not in r1.out:
+        raise lib.Inconclusive("model self-test: waiting transactions (FixC = FALSE) should deadlock with one connection")
     # 2. direction A: TLC behaviours replayed on the real cache
     d = w.sub("run")
     scheds = simulate(w, "sim3", "{1, 2, 3}", "PlansAll", 300 if quick else 3000, 45, sd)
@@ -128,8 +132,8 @@ def check(w, tier, t0):
     trans += tr
     for b in v["bad"]:
         e = allrows[b["i"] - 1]
-        case = {"kind": "storm", "plan": e["plan"], "admin": e["admin"]} if e["ev"] == "Storm" else \
-               {"kind": "schedule", "plan": e["plan"], "admin": e["admin"], "hist": [{"g": s["g"], "a": s["a"]} for s in scheds[e["case"] - 1]["hist"]]}
+        case = {"kind": "storm", "plan": e["plan"], "admin": e["admin"], "conns": e["conns"]} if e["ev"] == "Storm" else \
+               {"kind": "schedule", "plan": e["plan"], "admin": e["admin"], "conns": e["conns"], "hist": [{"g": s["g"], "a": s["a"]} for s in scheds[e["case"] - 1]["hist"]]}
         verdict.bad(case, signature(b), describe(e, b))
     for pair in sorted(set(races)):
         verdict.bad({"kind": "race", "functions": list(pair)}, None, "data race between " + " / ".join(pair))
